@@ -38,8 +38,19 @@ class _Canon(ast.NodeTransformer):
             self._fn_stack = self._fn_stack[:-1]
         return node
 
+    def visit_AnnAssign(self, node):
+        self.generic_visit(node)
+        # x: T = v  ->  x = v   (the annotation has no effect at run time for a simple store)
+        if node.value is not None and isinstance(node.target, (ast.Name, ast.Attribute, ast.Subscript)):
+            return ast.copy_location(ast.Assign(targets=[node.target], value=node.value), node)
+        return node
+
     def visit_Call(self, node):
         self.generic_visit(node)
+        # getattr(x, 'name') -> x.name
+        if isinstance(node.func, ast.Name) and node.func.id == 'getattr' and len(node.args) == 2 and not node.keywords and \
+                isinstance(node.args[1], ast.Constant) and isinstance(node.args[1].value, str) and node.args[1].value.isidentifier():
+            return ast.copy_location(ast.Attribute(value=node.args[0], attr=node.args[1].value, ctx=ast.Load()), node)
         # re.sub(pattern=p, repl=r, string=s) -> re.sub(p, r, s): the leading parameters of the `re` functions, named
         sig = _STDLIB_SIGNATURES.get(ast.unparse(node.func)) if isinstance(node.func, ast.Attribute) and node.keywords else None
         if sig and not any(isinstance(a, ast.Starred) for a in node.args) and all(k.arg for k in node.keywords):
